@@ -75,11 +75,15 @@ def extract_fn(lines, anchor):
         raise AnchorLost("signature anchor %r found %d times" % (anchor, len(idx)))
     start = idx[0]
     depth = 0
+    seen_open = False
     for j in range(start, len(lines)):
         # braces inside string/char literals do not occur in the anchored functions; comments are skipped
         code = re.sub(r"//.*", "", lines[j])
+        code = re.sub(r'"(?:[^"\\\\]|\\\\.)*"', '""', code)
+        if "{" in code:
+            seen_open = True
         depth += code.count("{") - code.count("}")
-        if depth == 0 and j > start or (depth == 0 and "{" in code and "}" in code):
+        if seen_open and depth == 0:
             return start, j
     raise AnchorLost("unbalanced braces after %r" % anchor)
 
@@ -96,8 +100,16 @@ def build_unit(ob, src_text):
     lines = src_text.split("\n")
     log = []
     # X6: type shape check
+    other = ov.get("type_check_files", {})
     for needle in ov.get("type_checks", []):
-        if not any(l.strip() == needle for l in lines):
+        hay = lines
+        if needle in other:
+            try:
+                with open(os.path.join(REPO, other[needle])) as f:
+                    hay = f.read().split("\n")
+            except OSError:
+                raise AnchorLost("declaration file %s missing" % other[needle])
+        if not any(l.strip() == needle for l in hay):
             raise AnchorLost("declaration changed: %r not found" % needle)
     log.append("X6 %d type/use declarations match the prelude" % len(ov.get("type_checks", [])))
     with open(os.path.join(VERUS_DIR, ov["prelude"])) as f:
@@ -109,7 +121,13 @@ def build_unit(ob, src_text):
         log.append("X1 %s: lines %d-%d of %s, sha256 %s" % (item["anchor"], s + 1, e + 1, ov["source"], sha[:16]))
         if item.get("drop_attrs"):
             log.append("X2 dropped attributes above the item: %s" % ", ".join(item["drop_attrs"]))
-        body[0] = "    " + item["signature"]
+        if item.get("anchor_end"):
+            ends = [k for k, l in enumerate(body) if l.strip() == item["anchor_end"]]
+            if not ends:
+                raise AnchorLost("signature end %r not found" % item["anchor_end"])
+            body[0:ends[0] + 1] = ["    " + item["signature"]]
+        else:
+            body[0] = "    " + item["signature"]
         log.append("X5 requires/ensures attached to the signature of %s" % item["marker"])
         ops = []
         for ins in item.get("insertions", []):
